@@ -267,16 +267,37 @@ func c08RTRun(args []string) error {
 		}
 		return false
 	}
-	for tries := 0; tries < 4000 && len(recs) < max+max/2; tries++ {
+	for tries := 0; tries < 4000 && len(recs) < 2*max; tries++ {
 		n := 3 + r.Intn(3)
 		rec := &c08RT{ID: len(recs), Cancellable: r.Intn(2) == 0, Chosen: []int{}, Errs: []string{}, NLead: 2}
-		for i := 0; i < n; i++ {
-			var alt []c08Lit
-			for _, in := range r.Perm(3)[:1+r.Intn(2)] {
-				alt = append(alt, c08Lit{Input: in + 1, Neg: r.Intn(2) == 0})
+		if tries%2 == 0 {
+			for i := 0; i < n; i++ {
+				var alt []c08Lit
+				for _, in := range r.Perm(3)[:1+r.Intn(2)] {
+					alt = append(alt, c08Lit{Input: in + 1, Neg: r.Intn(2) == 0})
+				}
+				rec.Alts = append(rec.Alts, alt)
+				rec.Leads = append(rec.Leads, [][]int{{1}, {2}, {1, 2}}[r.Intn(3)])
 			}
-			rec.Alts = append(rec.Alts, alt)
-			rec.Leads = append(rec.Leads, [][]int{{1}, {2}, {1, 2}}[r.Intn(3)])
+		} else {
+			// overlapping terminal sets: one alternative per terminal and one that can start with either and contradicts both,
+			// in random order (so the shared one meets a different partner on each terminal)
+			n = 3
+			ins := r.Perm(3)
+			a := []c08Lit{{Input: ins[0] + 1, Neg: r.Intn(2) == 0}}
+			b := []c08Lit{{Input: ins[1] + 1, Neg: r.Intn(2) == 0}}
+			if r.Intn(2) == 0 {
+				a = append(a, c08Lit{Input: ins[2] + 1, Neg: r.Intn(2) == 0})
+			}
+			c := []c08Lit{{Input: a[0].Input, Neg: !a[0].Neg}, {Input: b[0].Input, Neg: !b[0].Neg}}
+			alts, leads := [][]c08Lit{a, b, c}, [][]int{{1}, {2}, {1, 2}}
+			if r.Intn(2) == 0 {
+				leads[0], leads[1] = leads[1], leads[0]
+			}
+			for _, k := range r.Perm(3) {
+				rec.Alts = append(rec.Alts, alts[k])
+				rec.Leads = append(rec.Leads, leads[k])
+			}
 		}
 		ok, crossOnly := true, false
 		for i := 0; i < n && ok; i++ {
